@@ -214,13 +214,14 @@ def run(cx, tier='quick'):
     from ..metafacts import MetaFacts as _MF
     _cg = _CG(cx)
     _dis = _c17.Discharger(cx, _cg, _MF(cx, _cg))
-    for s_ in _c17.census(cx, list(cx.crate.fns)):
+    _sites = _c17.census(cx, list(cx.crate.fns))
+    for s_ in _sites:
         if s_.kind != 'arith':
             continue
         r_ = _dis.discharge(s_)
         inst_ = 'arith=%s' % s_.what
-        if r_:
-            rep.ok('DET-PROFILE', '%s|%s' % (s_.where, inst_), {'file': s_.fw.fn.file, 'line': s_.ev.line, 'discharged_by': r_[0]})
+        if r_ or (id(s_.fw.fn) in getattr(cx.crate, 'fully_inlined', ()) and _c17.copy_elsewhere(_sites, s_)):
+            rep.ok('DET-PROFILE', '%s|%s' % (s_.where, inst_), {'file': s_.fw.fn.file, 'line': s_.ev.line, 'discharged_by': r_[0] if r_ else 'inlined-into-all-callers'})
         else:
             rep.bad('DET-PROFILE', s_.where, inst_,
                     'integer arithmetic `%s` with no proof that it cannot overflow: a macro built with overflow checks panics here, one built without wraps and produces output' % s_.what,
